@@ -102,7 +102,7 @@ Proof.
   induction pre as [|c pre IH]; intros suf line ch idx Hch Hcr.
   - unfold pc_of. cbn [app count_lf len16s len8s]. rewrite !N.add_0_r.
     destruct suf as [|d suf]; cbn [p2u_go]; [reflexivity|].
-    rewrite !N.eqb_refl. reflexivity.
+    rewrite N.eqb_refl, N.leb_refl. reflexivity.
   - cbn [app p2u_go len8s].
     destruct (is_lf c) eqn:Elf.
     + assert (Hne : count_lf (c :: pre) <> 0) by (cbn [count_lf]; rewrite Elf; lia).
@@ -122,7 +122,7 @@ Proof.
         apply negb_true_iff in Hc.
         unfold pc_of. rewrite Ecl, N.add_0_r, !N.eqb_refl. cbn [len16s].
         pose proof (len16_pos c) as H16.
-        destruct (N.eqb_spec ch (ch + (len16 c + len16s pre))) as [E|_]; [lia|].
+        destruct (N.leb_spec (ch + (len16 c + len16s pre)) ch) as [E|_]; [lia|].
         rewrite Hc. cbn [orb].
         specialize (IH suf line (ch + len16 c) (idx + len8 c)).
         rewrite E0, N.add_0_r in IH. unfold pc_of in IH. rewrite E0 in IH.
@@ -227,17 +227,12 @@ Proof.
 Qed.
 
 Lemma p2u_on_line_over t : forall pl pc ch idx,
-  pc < ch ->
-  p2u_go t pl pc pl ch idx = idx + len8s (content (line1 t)).
+  pc <= ch ->
+  p2u_go t pl pc pl ch idx = idx.
 Proof.
-  induction t as [|c t IH]; intros pl pc ch idx Hlt.
-  - cbn. lia.
-  - cbn [p2u_go]. rewrite N.eqb_refl. rewrite line1_cons.
-    destruct (N.eqb_spec ch pc) as [E|_]; [lia|]. cbn [orb].
-    destruct (is_lf c) eqn:Elf; cbn [orb]; [cbn; lia|].
-    destruct (is_cr c) eqn:Ecr; cbn [orb content]; rewrite ?Ecr; [cbn; lia|].
-    pose proof (len16_pos c).
-    rewrite IH by lia. cbn [len8s]. lia.
+  destruct t as [|c t]; intros pl pc ch idx Hle; [reflexivity|].
+  cbn [p2u_go]. rewrite N.eqb_refl.
+  destruct (N.leb_spec pc ch) as [_|H]; [reflexivity|lia].
 Qed.
 
 Lemma p2u_on_line t : forall pl pc ch idx,
@@ -247,16 +242,16 @@ Proof.
   induction t as [|c t IH]; intros pl pc ch idx Hle.
   - cbn. lia.
   - cbn [p2u_go]. rewrite N.eqb_refl. rewrite line1_cons.
-    destruct (N.eqb_spec ch pc) as [E|Ene].
-    { subst. cbn [orb]. rewrite N.sub_diag, col8_0. lia. }
+    destruct (N.leb_spec pc ch) as [E|Ene].
+    { replace (pc - ch) with 0 by lia. rewrite col8_0. cbn [orb]. lia. }
     cbn [orb].
     destruct (is_lf c) eqn:Elf; cbn [orb]; [cbn; lia|].
     destruct (is_cr c) eqn:Ecr; cbn [orb content]; rewrite ?Ecr; [cbn; lia|].
     cbn [col8].
     destruct (N.eqb_spec (pc - ch) 0) as [E|_]; [lia|].
-    destruct (N.ltb_spec (pc - ch) (len16 c)) as [Hlt|Hge].
-    + rewrite p2u_on_line_over by lia. lia.
+    destruct (N.le_gt_cases (ch + len16 c) pc) as [Hin|Hover].
     + rewrite IH by lia. replace (pc - (ch + len16 c)) with (pc - ch - len16 c) by lia. lia.
+    + rewrite p2u_on_line_over by lia. replace (pc - ch - len16 c) with 0 by lia. rewrite col8_0. lia.
 Qed.
 
 Lemma p2u_before_line t : forall pl pc line idx,
@@ -341,7 +336,6 @@ Proof.
   - apply col8_0.
   - pose proof (len16_pos c).
     destruct (N.eqb_spec (len16 c + len16s p) 0) as [E|_]; [lia|].
-    destruct (N.ltb_spec (len16 c + len16s p) (len16 c)) as [Hlt|_]; [lia|].
     replace (len16 c + len16s p - len16 c) with (len16s p) by lia. rewrite IH. reflexivity.
 Qed.
 
@@ -350,7 +344,6 @@ Proof.
   induction l as [|c l IH]; intros k Hk; cbn [col8 len8s len16s] in *; [reflexivity|].
   pose proof (len16_pos c).
   destruct (N.eqb_spec k 0) as [E|_]; [lia|].
-  destruct (N.ltb_spec k (len16 c)) as [Hlt|_]; [reflexivity|].
   rewrite IH by lia. reflexivity.
 Qed.
 
@@ -446,26 +439,50 @@ Proof.
   rewrite col8_beyond by exact Hpc. reflexivity.
 Qed.
 
-(** F5: a column strictly inside a surrogate pair goes to the end of the line,
-    i.e. possibly *after* the position of a later column *)
-Theorem mid_surrogate_goes_to_eol a p c q r :
+(** F5 (fixed): a column strictly inside a surrogate pair is rounded up to the end of that
+    character, so that positions stay monotone; before the fix it ran to the end of the line *)
+Theorem mid_surrogate_rounds_up a p c q r :
   line_shape a (p ++ c :: q) r -> len16 c = 2 ->
   position_to_utf8 (a ++ (p ++ c :: q) ++ r) (count_lf a) (len16s p + 1)
-  = len8s a + len8s (p ++ c :: q).
+  = len8s a + len8s (p ++ [c]).
 Proof.
   intros (Ha & Hcr & Hlf & Hr) Hc.
   rewrite position_to_utf8_spec. unfold pos_spec.
   rewrite spec_go_skip by exact Ha.
   rewrite content_line1 by assumption. f_equal.
   clear - Hc. induction p as [|d p IH]; cbn [app len16s col8 len8s].
-  - rewrite N.add_0_l. cbn [N.eqb]. rewrite Hc.
+  - rewrite N.add_0_l. rewrite Hc. cbn [N.eqb].
     destruct (N.eqb_spec 1 0) as [E|_]; [lia|].
-    destruct (N.ltb_spec 1 2) as [_|H]; [reflexivity|lia].
+    replace (1 - 2) with 0 by lia. rewrite col8_0. lia.
   - pose proof (len16_pos d).
     destruct (N.eqb_spec (len16 d + len16s p + 1) 0) as [E|_]; [lia|].
-    destruct (N.ltb_spec (len16 d + len16s p + 1) (len16 d)) as [Hlt|_]; [lia|].
     replace (len16 d + len16s p + 1 - len16 d) with (len16s p + 1) by lia.
     rewrite IH. cbn [len8s]. reflexivity.
+Qed.
+
+(** positions are monotone: a later column never maps to an earlier offset (what
+    String::replace_range needs of a change range) *)
+Lemma col8_mono l : forall j k, j <= k -> col8 l j <= col8 l k.
+Proof.
+  induction l as [|c l IH]; intros j k Hjk; cbn [col8]; [lia|].
+  destruct (N.eqb_spec j 0) as [->|Hj].
+  - destruct (N.eqb k 0); lia.
+  - destruct (N.eqb_spec k 0) as [->|Hk]; [lia|]. specialize (IH (j - len16 c) (k - len16 c)). lia.
+Qed.
+
+Theorem position_mono_in_line t pl j k : j <= k -> position_to_utf8 t pl j <= position_to_utf8 t pl k.
+Proof.
+  intros Hjk. unfold position_to_utf8.
+  destruct (N.eq_dec pl 0) as [->|Hne].
+  - rewrite !p2u_on_line by lia. rewrite !N.sub_0_r. pose proof (col8_mono (content (line1 t)) j k Hjk). lia.
+  - rewrite !p2u_before_line by lia. rewrite N.sub_0_r.
+    generalize (split_lines t). clear t. intros ls. revert pl Hne.
+    induction ls as [|l ls IH]; intros pl Hne; cbn [spec_go]; [lia|].
+    destruct (N.eqb_spec pl 0) as [E|_]; [contradiction|].
+    destruct ls as [|l2 ls]; [lia|].
+    destruct (N.eq_dec (pl - 1) 0) as [E|Hn].
+    + rewrite E. cbn [spec_go]. rewrite N.eqb_refl. pose proof (col8_mono (content l2) j k Hjk). lia.
+    + specialize (IH (pl - 1) Hn). lia.
 Qed.
 
 (** * ranges: the client selects exactly the span's UTF-16 units *)
